@@ -46,7 +46,7 @@ FLOORS = {
     "P1": 3, "P2": 2, "P3": 5, "P4": 1, "P5": 2, "P6": 9, "P7": 5, "P8": 1, "P9": 1, "P10": 1, "P11": 1, "P12": 1, "P13": 1,
     "E7": 30, "U1": 5, "S2": 12, "S3": 15, "G1": 6, "G2": 5, "G3": 8, "G4": 5, "G5": 1, "S1b": 6, "M1": 1,
     "N1": 25, "N2": 8, "O4": 2, "O5": 4, "O6": 1, "O7": 2, "V1": 10, "V2": 1, "S4": 1, "S5": 2, "S6": 10, "S7": 4, "S8": 1, "S1c": 12,
-    "V3": 3, "G6": 1, "J1": 2, "P14": 1, "F12": 1, "F13": 4, "F14": 5, "M2": 1, "P15": 1,
+    "V3": 3, "G6": 1, "J1": 2, "P14": 1, "F12": 1, "F13": 4, "F14": 5, "M2": 1, "P15": 1, "P16": 1,
 }
 
 PROPERTIES = {}
@@ -351,8 +351,8 @@ prop(
 prop(
     "C13",
     anchor_modules=ENGINE_MODS,
-    rules=[P.rule_P6, _t(T.rule_T4e), E.rule_O1],
-    controls=[K.ctl_retry_off_by_one],
+    rules=[P.rule_P6, _t(T.rule_T4e), E.rule_O1, SH.rule_P16],
+    controls=[K.ctl_retry_off_by_one, K.ctl_reuse_retry_entry],
     explanation=(
         "Decides the structural clauses of retry: the retry decision (an if whose test calls "
         "_evaluate_task_retry) precedes, in update_task_state, every write of transition "
@@ -362,7 +362,10 @@ prop(
         "count being reads of the record's retry entry); the tally increment and the re-stage "
         "with the retry record are in the same 'new status == retrying' block; the retry delay "
         "reaches the offer; retrying is entered only from a completed status by the retry "
-        "command (T4e). NOT decided: the bound n+1 per visit across loops and reruns."),
+        "command (T4e); every new record of a task with a retry policy has its retry entry "
+        "evaluated by setup_retry_in_task_state from its own inbound contexts, under no further "
+        "condition, and add_task_state stores no retry entry of its own (P16). NOT decided: the "
+        "bound n+1 per visit across loops and reruns."),
     assumptions=[A_ABS, A_AST],
 )
 
@@ -471,9 +474,10 @@ prop(
     anchor_modules=["expressions.base", "expressions.yql", "expressions.jinja",
                     "expressions.functions.common", "conducting", "specs.native.v1.models"],
     rules=[PU.rule_O4, PU.rule_O5, PU.rule_O6, PU.rule_O7, PU.rule_V1, PU.rule_V2, E.rule_O2,
-           E.rule_F2, SH.rule_J1],
+           E.rule_F2, SH.rule_J1, SH.rule_M2],
     controls=[K.ctl_persist_internal_ctx, K.ctl_ctx_unfiltered, K.ctl_yaql_raw_context,
-              K.ctl_merge_skips_none, K.ctl_input_default_on_falsy, K.ctl_render_every_string],
+              K.ctl_merge_skips_none, K.ctl_input_default_on_falsy, K.ctl_render_every_string,
+              K.ctl_filter_published_delta],
     explanation=(
         "Decides the purity and hiding clauses: in every Evaluator.contextualize the caller's "
         "context reaches the template engine only through a converting / copying call (O4); no "
